@@ -660,6 +660,56 @@ def container_values(rng, kind, nfree, pattern):
         return [rng.randint(-8, 8) / 2 for _ in range(nfree)]
     return [rng.randint(-4, 4) for _ in range(nfree)]
 
+
+# ------------------------------------------------------------------------------------------------
+# what optimize_parameters(use_jac=True) hands to scipy: a custom `method` callable records the cost and the jacobian callables
+def optimizer_handoffs(w, initial, layer_by_layer=True, move=0.6):
+    """run optimize_parameters(initial, method=<recording callable>, use_jac=True, layer_by_layer=...) on a real VQA;
+    -> list of {"layer", "fixed" (the args scipy got), "x", "got" (jac(x,*args)), "fd" (central differences of fun(x,*args))}
+    for the start point of each minimisation and one moved point; the recorded method returns the moved point, so the
+    parameters fixed for later layers are not the initial ones"""
+    import contextlib, io
+    from scipy.optimize import OptimizeResult
+    v = build_vqa(w)
+    rec = []
+
+    def method(fun, x0, args=(), jac=None, **kw):
+        x0 = np.asarray(x0, dtype=float)
+        layer = len([r for r in rec if r["first"]]) + 1
+        rng = np.random.default_rng([int(w.get("seed", 0)), layer, 77])
+        x1 = x0 + move * rng.uniform(-1, 1, len(x0))
+        for k, x in enumerate((x0, x1)):
+            got = None if not callable(jac) else np.atleast_1d(np.asarray(jac(x, *args), dtype=float))
+            h = 1e-5
+            fd = np.array([(fun(x + h * e, *args) - fun(x - h * e, *args)) / (2 * h) for e in np.eye(len(x))], dtype=float)
+            rec.append({"layer": layer, "first": k == 0, "fixed": [float(a) for a in (np.ravel(args[0]) if args else [])],
+                        "x": [float(a) for a in x], "got": got, "fd": fd, "num_layers": v.num_layers})
+        return OptimizeResult(x=x1, fun=fun(x1, *args), nfev=1, success=True)
+
+    with contextlib.redirect_stdout(io.StringIO()):
+        v.optimize_parameters(initial=list(initial), method=method, use_jac=True, layer_by_layer=layer_by_layer)
+    return rec
+
+
+def layerwise_witnesses(rng, count):
+    """>= 2 layers, at least one PARAMETERISED initial block (Hamiltonian / ParameterizedHamiltonian), layer blocks with parameters"""
+    for n in range(count):
+        nq = 1 + n % 2
+        ini = [{"kind": "h", "nterms": 0, "initial": True}, {"kind": "p", "nterms": 2, "initial": True},
+               {"kind": "p", "nterms": 1 + n % 3, "initial": True}][n % 3]
+        lay = [{"kind": "h", "nterms": 0, "initial": False}, {"kind": "p", "nterms": 2, "initial": False}][(n // 3) % 2]
+        blocks = [dict(ini)]
+        if n % 4 == 1:
+            blocks.append({"kind": "n", "nterms": 0, "initial": False})
+        blocks.append(dict(lay))
+        if n % 5 == 2:
+            blocks.insert(1, {"kind": "u", "nterms": 0, "initial": True})
+        if n % 7 == 3:
+            blocks.append({"kind": "h", "nterms": 0, "initial": True})       # an initial block AFTER a layer block
+        w = {"nq": nq, "layers": 2 + n % 2, "blocks": blocks, "seed": 12000 + n}
+        w["optimize"] = {"layer_by_layer": True, "initial": [round(rng.uniform(-3.0, 3.0), 4) for _ in range(nfree_of(w))]}
+        yield w
+
 class Word:
     """element of the free monoid; the Qobj identity that starts both lists acts as the empty word"""
 
@@ -785,6 +835,7 @@ class C19(PropertyCheck):
             "ParameterizedHamiltonian; histories on one VQA object with one list/ndarray updated in place and public attributes "
             "(num_layers, cost_method, cost_observable, add_block) assigned and refused operations (duplicate add_block, unknown "
             "cost_method, short vectors, bad initial, out-of-range indices) executed between interleaved "
+            "[also: the jac / fun callables handed to scipy by optimize_parameters(use_jac=True, layer_by_layer) per layer] "
             "compute_jac / evaluate_parameters / get_final_state calls (each call = the call on a fresh object); every in-class case that returns is also "
             "re-evaluated numerically (propagators, derivative matrices, cost, jacobian values); "
             "non-trivial = at least one free parameter and (>= 2 series entries or a multi-parameter block)")
@@ -998,6 +1049,7 @@ class C19(PropertyCheck):
         self._special_pass(ctx, res)
         self._history_pass(ctx, res)
         self._container_pass(ctx, res)
+        self._handoff_pass(ctx, res)
 
     def _compare_special(self, ctx, res, w, v, angles, tags=()):
         """compute_jac at a special parameter vector (zeros, equal, pi-multiples, 1e-12 apart; coordinates need not be
@@ -1240,6 +1292,57 @@ class C19(PropertyCheck):
                         res.disagree(inp, bad[1], bad[2], "jacobian handed to the optimiser: " + bad[0], dict(cw, angles=fl, indices=idx))
                         break
 
+    def _handoff_pass(self, ctx, res):
+        """the `jac` callable scipy receives from optimize_parameters(use_jac=True), per minimisation (per layer when
+        layer_by_layer=True; >= 2 layers; parameterised initial blocks): compared with central differences of the `fun` callable
+        received together with it, and with the model's gradient of the free parameters of the current layer (the Lean model's
+        entries for indices [nfree(l-1), nfree(l)) of the vector fixed ++ x, re-evaluated numerically)"""
+        rng = ctx.rng
+        ws = list(layerwise_witnesses(rng, 24 if ctx.thorough else 8))
+        for n, w in enumerate(ws):
+            for lbl in ((True, False) if n % 4 == 0 else (True,)):
+                inp = {"what": "jacobian handed to scipy by optimize_parameters", "layer_by_layer": lbl, "nq": w["nq"],
+                       "layers": w["layers"], "blocks": enc_blocks(w["blocks"]), "initial": w["optimize"]["initial"], "seed": w["seed"]}
+                wit = dict(w, optimize=dict(w["optimize"], layer_by_layer=lbl))
+                res.case(inp, nontrivial=True, tags=["optimizer-handoff", f"layer_by_layer={int(lbl)}"])
+                try:
+                    rec = optimizer_handoffs(w, w["optimize"]["initial"], lbl)
+                except Exception as e:
+                    res.disagree(inp, "ok", classify_exc(e), "optimize_parameters(use_jac=True) with a recording method raised", wit)
+                    continue
+                want_calls = 2 * (w["layers"] if lbl else 1)
+                if len(rec) != want_calls:
+                    res.disagree(inp, want_calls // 2, len(rec) // 2, "number of minimisations started by optimize_parameters", wit)
+                    continue
+                for r in rec:
+                    Lc = r["layer"] if lbl else w["layers"]
+                    cw = dict(w, layers=Lc)
+                    full = r["fixed"] + r["x"]
+                    nf, nprev = nfree_of(cw), (nfree_of(dict(w, layers=Lc - 1)) if (lbl and Lc > 1) else 0)
+                    what = None
+                    if r["num_layers"] != Lc or len(full) != nf or len(r["fixed"]) != nprev:
+                        what = (f"minimisation {r['layer']}: num_layers={r['num_layers']}, {len(r['fixed'])} fixed + {len(r['x'])} free "
+                                f"parameters; the model has {nprev} fixed + {nf - nprev} free for {Lc} layer(s)")
+                    elif r["got"] is None or r["got"].shape != r["fd"].shape:
+                        what = f"minimisation {r['layer']}: jacobian of shape {None if r['got'] is None else r['got'].shape} for {len(r['x'])} free parameters"
+                    elif np.any(np.abs(r["got"] - r["fd"]) > 1e-6 + 1e-5 * np.abs(r["fd"])):
+                        what = (f"minimisation {r['layer']} (layer_by_layer={lbl}), fixed {r['fixed']}, free {r['x']}: the jacobian handed to "
+                                f"the optimiser {np.round(r['got'], 6).tolist()} is not the derivative of the cost handed to it "
+                                f"{np.round(r['fd'], 6).tolist()}")
+                    if what:
+                        res.disagree(inp, "gradient of the current layer's free parameters", what, what, wit)
+                        break
+                    enc = enc_blocks(cw["blocks"])
+                    idxs = ",".join(map(str, range(nprev, nf))) if nf > nprev else "none"
+                    model, circ_line = ctx.driver("drv_vqa").run([f"jac layers={Lc} blocks={enc} nangles={nf} idx={idxs} orig=0",
+                                                                  f"circuit layers={Lc} blocks={enc} nangles={nf}"])
+                    bad = self._semantic(ctx, cw, build_vqa(cw), full, model, None, r["got"], circ_line) if model.startswith("ok") else \
+                        ("model verdict", model, "ok")
+                    if bad:
+                        res.disagree(inp, bad[1], bad[2], f"minimisation {r['layer']}: jacobian handed to the optimiser vs the model's "
+                                     f"entries for parameters {list(range(nprev, nf))}: " + bad[0], wit)
+                        break
+
     def _compare_costcfg(self, ctx, res):
         """cost_method x cost_observable set/None x cost_func set/None: compute_jac ignores cost_method and cost_func,
         raises NotImplementedError without observable when an entry is requested; which quantity
@@ -1313,6 +1416,8 @@ class C19(PropertyCheck):
             return False, "outside the property's class (function block, 0-term Hamiltonian, or not observable cost mode)"
         if w.get("history"):
             return self._replay_history(w)
+        if w.get("optimize"):
+            return self._replay_optimize(w)
         v = build_vqa(w)
         nfree = v.get_free_parameters_num()
         angles = w.get("angles")
@@ -1340,6 +1445,29 @@ class C19(PropertyCheck):
             how = f" (vector {[float(a) for a in angles]} passed as {w['container']})" if w.get("container") else ""
             return True, f"entry {j} (parameter {want[j]}): analytic {jac[j]:.9g} vs finite difference {fd[j]:.9g}{how}"
         return False, f"{len(want)} entries agree with central differences"
+
+    def _replay_optimize(self, w):
+        """the jacobian callable handed to scipy by optimize_parameters(use_jac=True) against central differences of the cost
+        callable handed over with it, for every minimisation (layer)"""
+        o = w["optimize"]
+        if len(o["initial"]) != nfree_of(w):
+            return False, "initial vector of the wrong length (not an input of the property)"
+        try:
+            rec = optimizer_handoffs(w, o["initial"], o.get("layer_by_layer", True))
+        except Exception as e:
+            return True, f"optimize_parameters(use_jac=True) raised {type(e).__name__}: {e}"
+        for r in rec:
+            if r["got"] is None or r["got"].shape != r["fd"].shape:
+                return True, (f"minimisation {r['layer']}: jacobian of shape {None if r['got'] is None else r['got'].shape} handed to the "
+                              f"optimiser for {len(r['x'])} free parameters")
+            err = np.abs(r["got"] - r["fd"])
+            tol = 1e-6 + 1e-5 * np.abs(r["fd"])
+            if np.any(err > tol):
+                j = int(np.argmax(err - tol))
+                return True, (f"optimize_parameters(use_jac=True, layer_by_layer={o.get('layer_by_layer', True)}), minimisation "
+                              f"{r['layer']}: entry {j} of the jacobian handed to the optimiser {r['got'][j]:.9g} vs finite difference of "
+                              f"the cost handed to it {r['fd'][j]:.9g} (fixed {r['fixed']}, free {r['x']})")
+        return False, f"{len(rec)} jacobians handed to the optimiser agree with central differences of its cost"
 
     def _replay_history(self, w):
         """one VQA object, one container updated in place, public attributes assigned between calls: every compute_jac of the
@@ -1435,6 +1563,12 @@ class C19(PropertyCheck):
                 yield w, d
             if time.time() - t0 > budget_s / 4:
                 break
+        for w in layerwise_witnesses(ctx.rng, 12):
+            f, d = self.oracle_replay(ctx, w)
+            if f:
+                yield w, d
+            if time.time() - t0 > budget_s / 5:
+                break
         for w in self._container_witnesses(ctx.rng, 26):
             f, d = self.oracle_replay(ctx, w)
             if f:
@@ -1471,6 +1605,10 @@ class C19(PropertyCheck):
                 yield w, d
 
     def oracle_always(self, ctx):
+        for w in layerwise_witnesses(ctx.rng, 12 if ctx.thorough else 4):
+            f, d = self.oracle_replay(ctx, w)
+            if f:
+                yield w, d
         for w in self._container_witnesses(ctx.rng, 39 if ctx.thorough else 13):
             f, d = self.oracle_replay(ctx, w)
             if f:
